@@ -24,7 +24,7 @@ Dispose == /\ IsEv("dispose") /\ ~gone
 (* heap objects deleted by their owner's destructor while the collector sweeps: each is finalised at most once, none twice,
    and no release of an already released block is attempted (the library reports that as ValueError) *)
 Owned == /\ IsEv("owned") /\ UNCHANGED <<ocls, oreg, gone>>
-         /\ E.exc = "" /\ E.lerr = 0 /\ E.issued = E.pairs /\ E.retired <= E.issued
+         /\ E.exc = "" /\ E.lerr = 0 /\ E.issued >= E.pairs /\ E.retired <= E.issued
 TNext == Plain \/ Obtain \/ Dispose \/ Owned
 TSpec == TInit /\ [][TNext]_tv
 Accepted == LET d == TLCGet("stats").diameter IN
